@@ -161,6 +161,39 @@ class Sib:
                      call_parts(rr)[1][0], pos[0], e.fi, None, hyp_b=hyp_u,
                      what="walker_up -> walker, h1[0] -> h1")
 
+    def force_bias_is_coulomb_trace(self):
+        """SIB-2 inside one class: <L_g> = tr(G L_g) appears twice, as the force bias and as the Coulomb trace whose
+        square enters the two-body energy; the two hand-written contractions must be the same function of walker and
+        integrals (times 2 where one spatial Green's function stands for both spins)."""
+        from ..symex import match_vmap, strip_wrappers, subterms
+        from .gvn import ZERO, c_add, c_mul
+        table = (("ghf", "_calc_force_bias", "_calc_energy", 1), ("uhf", "_calc_force_bias", "_calc_energy", 1),
+                 ("rhf", "_calc_force_bias_restricted", "_calc_energy_restricted", 2))
+        for cls, fbm, enm, factor in table:
+            fb, en = self.E(cls, fbm), self.E(cls, enm)
+            traces = []
+            for x in subterms(en.result):
+                vm = match_vmap(x) if x.op == "call" else None
+                if vm is not None and vm[0].op == "name" and vm[0].args[0].split(".")[-1] == "trace" and x not in traces:
+                    traces.append(x)
+            if not traces:
+                raise AnalysisError(f"{cls}.{enm}: Coulomb traces vmap(trace)(...) not found")
+            g = GVN(self.ev)
+            try:
+                a = g.number(fb.result)
+                tot = {}
+                for t in traces:
+                    for k_, v in g.number(t).items():
+                        tot[k_] = c_add(tot.get(k_, ZERO), v)
+            except TooBig:
+                raise AnalysisError(f"{cls}: value numbering exceeded its budget")
+            from fractions import Fraction
+            scaled = {k_: c_mul(v, (Fraction(factor), Fraction(0))) for k_, v in tot.items()}
+            ok = f_key(a) == f_key(scaled)
+            self.ctx.ob("SIB-2", f"{cls}.{fbm} == {factor} x (sum of the Coulomb traces of {enm})", ok,
+                        "equal value numbers" if ok else
+                        f"force bias {g.describe(a)[:160]}  vs  energy's traces {g.describe(scaled)[:160]}", fb.fi)
+
     def noci_trans_rdm1_symmetry(self):
         e = self.E("noci", "_get_trans_rdm1_single_det")
         sw = swap_map([(sym("sd_0_up"), sym("sd_0_dn")), (sym("sd_1_up"), sym("sd_1_dn")), (nelec(0), nelec(1))])
